@@ -1,7 +1,7 @@
 (* SrcTie.v — Tie A: what tools/src2v.py regenerated from /repo's working tree (gen/Src.v)
    equals what the model uses.  A source edit to a translated constant or kernel breaks one
    of these lemmas at `make` time. *)
-From MLA Require Import Base Stream EncLayer.
+From MLA Require Import Base Stream EncLayer CompLayer.
 From MLAGen Require Src.
 From Coq Require Import ZifyBool ZifyNat ZifyN.
 Open Scope N_scope.
@@ -55,6 +55,25 @@ Section Kernels.
   Lemma seek_cur_pos_eq k c : Src.seek_cur_pos CHUNK k c = Ok (k * CHUNK + c).
   Proof. reflexivity. Qed.
 End Kernels.
+
+(* ---- compress.rs: SizesInfo and the SeekFrom::End target ---- *)
+Lemma vec_get_nthN {A} (l : list A) : forall i, Src.vec_get l i = nthN l i.
+Proof. induction l as [|x r IH]; intros i; cbn [Src.vec_get nthN]; [reflexivity|]. now rewrite IH. Qed.
+
+Lemma sizes_info_kernels_eq BLOCK sizes last :
+  (forall b, Src.si_uncompressed_block_size_at BLOCK sizes last b = Ok (si_ubs BLOCK (mkSI sizes last) b)) /\
+  (forall p, Src.si_compressed_block_size_at BLOCK sizes p = si_cbs BLOCK (mkSI sizes last) p) /\
+  Src.si_max_uncompressed_pos BLOCK sizes last = Ok (si_max BLOCK (mkSI sizes last)).
+Proof.
+  repeat split.
+  - intros b. unfold Src.si_uncompressed_block_size_at, si_ubs. cbn [si_sizes si_last].
+    destruct (b + 1 <? len sizes); reflexivity.
+  - intros p. unfold Src.si_compressed_block_size_at, si_cbs. cbn [si_sizes].
+    rewrite vec_get_nthN. destruct (nthN sizes (p / BLOCK)); reflexivity.
+Qed.
+
+Lemma comp_seek_end_target_eq e d : Src.comp_seek_end_target e d = end_target e d.
+Proof. unfold Src.comp_seek_end_target, end_target. destruct (d <=? e); reflexivity. Qed.
 
 (* ---- mlar get_extracted_path: the component filter (C16) ---- *)
 From MLA Require Path.
